@@ -287,10 +287,18 @@ prop(
     TRUST + ["engine/nbtlint front end (see C17)"],
 )
 
+from prec import rule_prec  # noqa: E402
+import facts as _facts  # noqa: E402
+
+prop(
+    "C10",
+    "Necessary-condition clauses of C10 (PREC): the level functions of the recursive-descent parser are discovered from Parser::expression through the resolved call graph; for each documented row of book/src/basics/operations.md the token kinds of its documented spellings (mapped through Tokenizer::scan_single_token's own arms and keyword table) are consumed, as prefix or infix/postfix operators, at a level whose nesting depth is ≥ that of every row below it (17 rows, 16 ordered pairs); `^` parses its right operand by self-recursion (right-assoc), conversions and all parse_binop levels fold in a loop (left-assoc). This includes `per` tighter than `/`, implicit multiplication tighter than `/`, unary minus looser than `^` and `!`. Not decided: rejection of every input outside the grammar, number-literal forms.",
+    [("PREC", lambda ctx: rule_prec(ctx.lib, _facts.REPO))],
+    TRUST + ["book/src/basics/operations.md is the oracle for the documented precedence"],
+)
+
 NOT_APPLICABLE = {
     "C03": "numerical agreement of conversion factors over 500 units is a statement about run-time values; no structural clause is a necessary condition that is not already covered under C04/C11/C12 (static analysis cannot bound the arithmetic)",
     "C14": "a statement about the decimal rendering of every f64 under every format setting; the code delegates to pretty_dtoa/num_format and no structural clause of Number::pretty_print_with_dtoa_config can be decided without evaluating it",
     "C23": "numeric round trips over function domains; composing the .nbt function bodies algebraically would be symbolic evaluation, which is a different technique family",
-    # temporarily unclaimed while their rules are being built (see DESIGN.md section 9)
-    "C10": "rule PREC under construction",
 }
